@@ -14,6 +14,10 @@
     scenario/scenario.py:1297-1314      Scenario
     planning/goal.py:123-131, planning/planning_problem.py:96-105, 187-195   GoalRegion / PlanningProblem(Set)
 
+  Records list every world-frame / body-frame spatial attribute of the Python classes (harness ATTR_TABLE): besides what
+  `translate_rotate` moves also `TrafficLight.shape`, `obstacle_shape`, `TrajectoryPrediction.shape` (body frame, unchanged) and
+  `lanelet_network.areas` borders, `DynamicObstacle.history` (world frame, left in place by the code).
+
   Reals are `Rat`.  The rotation enters as the pair `(c, s)` — the values `math.cos(a)`, `math.sin(a)` the code
   computes (transform.py:76-77) — next to the angle `a` itself, which is what is added to orientations.
   Float rounding inside `+ - *` is modelled as exact.
@@ -48,12 +52,6 @@ def Mo.mv (m : Mo) (p : Pt) : Pt := tr m.c m.s m.t p
 def Mo.rv (m : Mo) (v : Pt) : Pt := rot m.c m.s v
 /-- `make_valid_orientation(θ + a)` (util.py:28-33). -/
 def Mo.wr (m : Mo) (θ : Rat) : Rat := makeValid m.τ (θ + m.a)
-
-/-- `(cos, sin)` as chosen by `translation_rotation_matrix` BEFORE the repair (transform.py:72-74 of the pinned tree):
-    `if |a| <= 0.05: cos = 1, sin = a`.  Kept for the witness theorem `C05_small_angle_branch_not_rigid`;
-    the repaired code uses `(math.cos a, math.sin a)` for every angle. -/
-def csBeforeFix (a cosA sinA : Rat) : Rat × Rat :=
-  if (if a < 0 then -a else a) ≤ 1 / 20 then (1, a) else (cosA, sinA)
 
 /-- `assert is_valid_orientation(angle)` at the head of (almost) every `translate_rotate`. -/
 def guard (m : Mo) : Res Unit := if validOrientation m.τ m.a then .ok () else .error .assert
@@ -144,12 +142,14 @@ inductive Pos where
   | none
   | pt (p : Pt)
   | region (sh : Shape)
+  | other                      -- anything that is neither an ndarray nor a Shape (list, tuple, ...): TypeError branch
   deriving Repr
 
 inductive Ori where
   | none
   | exact (θ : Rat)
   | iv (i : I)
+  | other                      -- neither a number nor an AngleInterval: TypeError branch
   deriving Repr
 
 /-- The spatial content of a state: `position` (array or Shape), stored `orientation` (scalar or AngleInterval) and,
@@ -167,6 +167,7 @@ def Pos.move (m : Mo) : Pos → Res Pos
     match Shape.move m sh with
     | .error e => .error e
     | .ok sh' => .ok (.region sh')
+  | .other => .error .type       -- state.py:272-276 `raise TypeError`
 
 /-- scalar: `make_valid_orientation(θ + a)`; interval: `AngleInterval.__add__` = constructor on the shifted ends. -/
 def Ori.move (m : Mo) : Ori → Res Ori
@@ -176,6 +177,7 @@ def Ori.move (m : Mo) : Ori → Res Ori
     match addAngle m.τ i m.a with
     | .error e => .error e
     | .ok i' => .ok (.iv i')
+  | .other => .error .type       -- state.py:284-288 `raise TypeError`
 
 /-- `State.translate_rotate` (state.py:247-292, after the repair: a point-mass state's velocity vector turns
     with the frame instead of assigning to the read-only `orientation`). -/
@@ -246,45 +248,59 @@ def movePosition (m : Mo) (p : Pt) : Res Pt :=
   | .error e => .error e
   | .ok _ => .ok (m.mv p)
 
+/-- A traffic light: `position` and the optional `shape` (a `Rectangle` describing the housing, default centre (0, 0):
+    body frame; no reader, writer or renderer uses it).  `TrafficLight.translate_rotate` moves the position only. -/
+structure Light where
+  pos : Pt
+  shape : Option Shape
+  deriving Repr
+
+def Light.move (m : Mo) (l : Light) : Res Light :=
+  match movePosition m l.pos with
+  | .error e => .error e
+  | .ok p => .ok ⟨p, l.shape⟩
+
 /-! ### obstacles -/
 
 inductive Pred where
   | none
-  | traj (sts : List State)      -- TrajectoryPrediction: the states (its shape lives in the body frame)
+  | traj (body : Shape) (sts : List State)   -- TrajectoryPrediction: `shape` (body frame, not moved) and the states
   | occ (shs : List Shape)       -- SetBasedPrediction: the occupancy shapes
   deriving Repr
 
 def Pred.move (m : Mo) : Pred → Res Pred
   | .none => .ok .none
-  | .traj sts =>
+  | .traj body sts =>
     match guard m with
     | .error e => .error e
     | .ok _ =>
       match moveTraj m sts with
       | .error e => .error e
-      | .ok sts' => .ok (.traj sts')
+      | .ok sts' => .ok (.traj body sts')
   | .occ shs =>
     match moveOccs m shs with
     | .error e => .error e
     | .ok shs' => .ok (.occ shs')
 
 inductive Obstacle where
-  | static (st : State)                 -- obstacle_shape is given in the body frame and is not moved
-  | dynamic (st : State) (p : Pred)
+  | static (body : Shape) (st : State)  -- `obstacle_shape` is given in the body frame and is not moved
+  /-- `history`: the past states of the obstacle (world frame, appended by `update_initial_state`);
+      `DynamicObstacle.translate_rotate` does not touch them. -/
+  | dynamic (body : Shape) (st : State) (p : Pred) (hist : List State)
   | phantom (p : Option (List Shape))
   | env (sh : Shape)                    -- EnvironmentObstacle: the shape is given in the world frame
   deriving Repr
 
 /-- `Static/Dynamic/Phantom/EnvironmentObstacle.translate_rotate` (the last one exists since the repair). -/
 def Obstacle.move (m : Mo) : Obstacle → Res Obstacle
-  | .static st =>
+  | .static body st =>
     match guard m with
     | .error e => .error e
     | .ok _ =>
       match State.move m st with
       | .error e => .error e
-      | .ok st' => .ok (.static st')
-  | .dynamic st p =>
+      | .ok st' => .ok (.static body st')
+  | .dynamic body st p hist =>
     match guard m with
     | .error e => .error e
     | .ok _ =>
@@ -293,7 +309,7 @@ def Obstacle.move (m : Mo) : Obstacle → Res Obstacle
       | .ok p' =>
         match State.move m st with
         | .error e => .error e
-        | .ok st' => .ok (.dynamic st' p')
+        | .ok st' => .ok (.dynamic body st' p' hist)
   | .phantom none =>
     match guard m with
     | .error e => .error e
@@ -318,8 +334,11 @@ def Obstacle.move (m : Mo) : Obstacle → Res Obstacle
 structure Scenario where
   lanelets : List Lanelet
   signs : List Pt
-  lights : List Pt
+  lights : List Light
   obstacles : List Obstacle
+  /-- `lanelet_network.areas[*].border[*].border_vertices` (world frame).  Neither `Area` nor `AreaBorder` has a
+      `translate_rotate`, and `LaneletNetwork.translate_rotate` does not touch them. -/
+  areas : List (List (List Pt))
   deriving Repr
 
 /-- `Scenario.translate_rotate`: the lanelet network (lanelets, signs, lights), then every obstacle of every role
@@ -334,12 +353,12 @@ def Scenario.move (m : Mo) (sc : Scenario) : Res Scenario :=
       match mapR (movePosition m) sc.signs with
       | .error e => .error e
       | .ok sg =>
-        match mapR (movePosition m) sc.lights with
+        match mapR (Light.move m) sc.lights with
         | .error e => .error e
         | .ok lt =>
           match mapR (Obstacle.move m) sc.obstacles with
           | .error e => .error e
-          | .ok obs => .ok ⟨ls, sg, lt, obs⟩
+          | .ok obs => .ok ⟨ls, sg, lt, obs, sc.areas⟩
 
 structure Problem where
   init : State
